@@ -178,9 +178,17 @@ def CfgOK (c : Cfg) : Bool :=
     | some a, some b => decide (a < b)
     | _, _ => false)
 
+/-- the value is declared `bool`: a `not`, possibly under unary `+`/`-` (which keep the declared
+type of their operand).  `most_accurate_type` does not know `bool`. -/
+def boolTyped : PExpr → Bool
+  | .un op e => op == "Not" || boolTyped e
+  | _ => false
+
 /- `Accepted c e`: the inputs the translator takes (whatever the C++ then means): operands of a
 type `_type_priority` knows, known operators, calls that resolve to a row (direct arguments may
-be leaves of any type). -/
+be leaves of any type).  Since `not x` is declared `bool` (ea7911a), a `not` may stand at the top,
+under another unary operator, as an argument of a call and as an operand of `**` (none of which asks
+`most_accurate_type`), but not as an operand of an operator of the operator table. -/
 mutual
 def Accepted (c : Cfg) : PExpr → Bool
   | .leaf _ ty => (assoc c.prio ty).isSome
@@ -189,7 +197,9 @@ def Accepted (c : Cfg) : PExpr → Bool
     (match findKnown c.table c.env f with
       | .ok (some _) => true
       | _ => false)
-  | .bin op l r => ((assoc c.binOps op).isSome || op == "Pow") && Accepted c l && Accepted c r
+  | .bin op l r =>
+    (((assoc c.binOps op).isSome && !boolTyped l && !boolTyped r) || ((assoc c.binOps op).isNone && op == "Pow")) &&
+    Accepted c l && Accepted c r
   | .un op e => (assoc c.unOps op).isSome && Accepted c e
 def AcceptedArgs (c : Cfg) : List PExpr → Bool
   | [] => true
